@@ -141,7 +141,7 @@ uint32_t Wave_File::parse_chunk(const uint8_t *fdata)
 			stype = *(uint16_t*)(fdata+0x08);
 			channels = *(uint16_t*)(fdata+0x0a);
 			sbits = *(uint16_t*)(fdata+0x16);
-			step = (sbits * channels) / 8;
+			step = ((uint32_t)sbits * channels) / 8; // two uint16_t promote to int: 51464 * 49921 would overflow
 			srate = *(uint32_t*)(fdata+0x0c);
 			slength = 0;
 			if(stype != 1 || channels > 2 || step == 0 || (sbits != 8 && sbits != 16))
